@@ -1402,7 +1402,7 @@ pub fn run(ctx: &mut Ctx) {
         Ok(x) => x,
         Err(e) => {
             eprintln!("harness: C06 cannot set up shared ports: {e}");
-            std::process::exit(2);
+            crate::engine::exit_trouble();
         }
     };
     let env = Arc::new(env);
